@@ -134,6 +134,11 @@ def build_pool(seed):
         rest = [x for x in comps if x.type != 'ground']
         pool[f'complist{k}'] = (g + rest) if k == 0 else (rest[:1] + g + rest[1:])
     pool['branchlist0'] = list(pool['net0'].branches)
+    # a valid description whose solution section also names an element that does not exist (the library prints a note and goes on)
+    pool['sdesc2'] = {'unit': 3, 'elements': pool['sdesc0']['elements'],
+                      'solution': {'type': 'dc', 'precision': 3, 'voltages': [{'name': 'R1'}, {'name': 'nope'}, {'name': 'R2', 'reverse': True}],
+                                   'currents': [{'name': 'nope'}, {'name': 'R1'}], 'powers': [{'name': 'R2'}, {'name': 'nope'}]}}
+    pool['sdesc2'] = copy.deepcopy(pool['sdesc2'])
     pool['wlist0'] = [0.0, 1.0, 50.0]
     pool['tgrid'] = np.linspace(0.0, 0.5, 40)
     return pool
@@ -351,6 +356,43 @@ def run_op(pool, op):
             path = os.path.join(d, 'document.' + args[1])
             dump_load.dump(path, pool[args[0]])
             return fp(dump_load.load(path))
+        if name == 'transform_res':
+            # the same circuit object and frequency with another resolution (a memo must not forget the resolution)
+            return fp(cc.transform_circuit(pool[args[0]], args[1], args[2]))
+        if name == 'edit_schematic':
+            # one Schematic object translated, edited IN PLACE so that the element count is unchanged (last resistor replaced), translated again:
+            # the second translation must be the translation of a freshly drawn identical picture
+            import matplotlib.pyplot as plt
+            from CircuitCalculator.SimpleCircuit.DiagramTranslator import circuit_translator
+            import CircuitCalculator.SimpleCircuit.Elements as elm
+
+            def picture(r2):
+                d = elm.Schematic(unit=3)
+                v = elm.VoltageSource(V=12.0, name='V').up()
+                d += v
+                r1 = elm.Resistor(R=10.0, name='R1').right()
+                d += r1
+                d += elm.Line().at(v.start).right()
+                d += elm.Ground().at(v.start)
+                d += elm.Resistor(R=r2, name='R2').at(r1.end).down()
+                return d, r1
+
+            def summary(c):
+                return [[(x.type, x.id, tuple(x.nodes), dict(x.value)) for x in c.components], c.ground_node]
+            try:
+                d, r1 = picture(24.0)
+                first = summary(circuit_translator(d))
+                # replace the last symbol (R2 = 24 ohm) by a 12 ohm resistor at the same place: same number of elements
+                d.elements.pop()
+                d += elm.Resistor(R=12.0, name='R2').at(r1.end).down()
+                second = summary(circuit_translator(d))
+                want = summary(circuit_translator(picture(12.0)[0]))
+                vals = lambda s_: sorted((i, sorted(v.items())) for _, i, _, v in s_[0])
+                if vals(second) != vals(want):
+                    return 'STALE:second translation of the edited drawing ' + fp(vals(second)) + ' is not the translation of the same picture drawn afresh ' + fp(vals(want))
+                return fp([vals(first), vals(second)])
+            finally:
+                plt.close('all')
         if name in ('create_schematic', 'simulate', 'schematic_roundtrip'):
             import matplotlib.pyplot as plt
             from CircuitCalculator.SimpleSimulation.schematic import create_schematic
@@ -399,6 +441,9 @@ def all_ops():
     ops += [['nssm', 0], ['nssm', 1]]
     for d in ('sdesc0', 'sdesc1'):
         ops += [['create_schematic', d], ['simulate', d], ['schematic_roundtrip', d]]
+    ops += [['create_schematic', 'sdesc2'], ['edit_schematic']]
+    for c in ('circ0', 'circ2'):
+        ops += [['transform_res', c, 50.0, 1e-3], ['transform_res', c, 50.0, 2.0], ['transform_res', c, 49.5, 1e-3], ['transform_res', c, 49.5, 2.0]]
     ops += [['fourier', f'pf{k}'] for k in range(5)]
     ops += [['make_circuit', 'complist0'], ['make_circuit', 'complist1'], ['make_network', 'branchlist0']]
     ops += [['load_file', 'desc0'], ['load_file', 'desc1'], ['dump_load_file', 'doc0', 'json'], ['dump_load_file', 'flat0', 'json'],
@@ -460,6 +505,9 @@ def examine(ctx, pool_seed, hist_seed, length, must=()):
         r = run_op(pool, op)
         want = iso[json.dumps(op)]
         rep = dict(rep_base, step=step, op=op, history_prefix=history[:step + 1])
+        if r.startswith('STALE:') and ('stale', op[0]) not in seen_mut:
+            seen_mut.add(('stale', op[0]))
+            ctx.violation('C20:result-depends-on-history:' + op[0], r[:400], dict(rep, history=[op]))
         if 'ALIAS:' in r:
             # observed, not judged: the property is about what the LIBRARY's calls do; a caller who edits a returned array in place and
             # thereby changes a later answer (on the unchanged tree: the time axis of TransientSolution is the caller's own `tin` array)
